@@ -145,37 +145,41 @@ def run_plain(case):
 def run_children(cases, seeds, repo=None, parallel=CHILD_PARALLEL):
     """Runs the whole batch of cases once per seed, each time in a fresh /venv/bin/python with
     PYTHONHASHSEED=<seed>.  Returns {seed: [run_plain result per case]}."""
+    import tempfile
     repo = repo or os.environ.get("VERIF_REPO", "/repo")
-    payload = json.dumps({"repo": repo, "verif": HERE, "cases": cases}).encode("utf-8")
-    if len(payload) > 60000:
-        raise RuntimeError("case batch too large for one pipe write (%d bytes): make the work units smaller" % len(payload))
+    fd, path = tempfile.mkstemp(prefix="verif-%d-c10batch-" % os.getpid(), suffix=".json", dir="/dev/shm")
+    with os.fdopen(fd, "w") as fh:
+        json.dump({"repo": repo, "verif": HERE, "cases": cases}, fh)
     out = {}
     seeds = list(seeds)
-    for i in range(0, len(seeds), parallel):
-        procs = []
-        for k in seeds[i:i + parallel]:
-            env = dict(os.environ)
-            env["PYTHONHASHSEED"] = str(k)
-            env["PYTHONDONTWRITEBYTECODE"] = "1"
-            p = subprocess.Popen([sys.executable, CHILD], env=env, stdin=subprocess.PIPE, stdout=subprocess.PIPE,
-                                 stderr=subprocess.PIPE)
-            p.stdin.write(payload)      # a few KB: fits the pipe buffer, so the children really run side by side
-            p.stdin.close()
-            p.stdin = None
-            procs.append((k, p))
-        for k, p in procs:
-            try:
-                so, se = p.communicate(timeout=300)
-            except subprocess.TimeoutExpired:
-                for _, q in procs:
-                    q.kill()
-                raise RuntimeError("child interpreter (seed %s) timed out" % k)
-            if p.returncode != 0:
-                raise RuntimeError("child interpreter (seed %s) failed: %s" % (k, se.decode("utf-8", "replace")[-1500:]))
-            doc = json.loads(so.decode("utf-8"))
-            if doc.get("hashseed") != str(k):
-                raise RuntimeError("child did not run under the requested seed: %r" % (doc.get("hashseed"),))
-            out[k] = doc["results"]
+    try:
+        for i in range(0, len(seeds), parallel):
+            procs = []
+            for k in seeds[i:i + parallel]:
+                env = dict(os.environ)
+                env["PYTHONHASHSEED"] = str(k)
+                env["PYTHONDONTWRITEBYTECODE"] = "1"
+                p = subprocess.Popen([sys.executable, CHILD, path], env=env, stdin=subprocess.DEVNULL,
+                                     stdout=subprocess.PIPE, stderr=subprocess.PIPE)
+                procs.append((k, p))
+            for k, p in procs:
+                try:
+                    so, se = p.communicate(timeout=600)
+                except subprocess.TimeoutExpired:
+                    for _, q in procs:
+                        q.kill()
+                    raise RuntimeError("child interpreter (seed %s) timed out" % k)
+                if p.returncode != 0:
+                    raise RuntimeError("child interpreter (seed %s) failed: %s" % (k, se.decode("utf-8", "replace")[-1500:]))
+                doc = json.loads(so.decode("utf-8"))
+                if doc.get("hashseed") != str(k):
+                    raise RuntimeError("child did not run under the requested seed: %r" % (doc.get("hashseed"),))
+                out[k] = doc["results"]
+    finally:
+        try:
+            os.remove(path)
+        except OSError:
+            pass
     return out
 
 
